@@ -50,9 +50,15 @@ def _r10_migrated_columns(ctx, M):
                     continue
                 T = T or terms(P, b)
                 i = norm(T.call_args(bb)[1])
-                if i[0] != "const" or not isinstance(i[1], int) or i[1] >= len(items):
+                while i[0] in ("ref", "deref"):
+                    i = norm(i[1])
+                if i[0] == "const" and isinstance(i[1], str):
+                    # row.get("name"): the result column with that name (alias, or the column's own name)
+                    e = next((e_ for e_, al in items if (al or (e_[1] if e_[0] == "col" else None)) == i[1]), ("col", i[1]))
+                elif i[0] == "const" and isinstance(i[1], int) and not isinstance(i[1], bool) and i[1] < len(items):
+                    e = items[i[1]][0]
+                else:
                     continue
-                e = items[i[1]][0]
                 if e[0] == "col" and e[1] in cols:
                     n += 1
                     ctx.saw(b)
